@@ -33,6 +33,12 @@ package future
 // completion takes effect at most once
 //@ func (*Future).close
 //@   funcspec closer preserves f.err, f.message, f.done, f.liaison, f.forwarders, aval(f.closed), futwf(f)
+// published before signalled: Result / Wait read message and err right after <-done without any lock, so both must
+// hold their final values when done is closed (sequentially the order of those statements is invisible)
+//@   ghostvar pm any
+//@   ghostvar pe any
+//@   callspec close sets pm = f.message, pe = f.err
+//@   ensures  !old(aval(f.closed)) ==> f.message == pm && f.err == pe
 //@   requires futwf(f) && !held(f.mu)
 //@   modifies f.closed, f.err, f.message, f.forwarders, anyold, gmap(chclosed), gmap(piped), gmap(pipedn), ghost(calls_closer)
 //@   ensures  futwf(f) && aval(f.closed)
